@@ -94,4 +94,12 @@ CHECKS = {
         note="Trusted: Lean kernel; serde_json value semantics; JSON objects as association lists with unique keys; effective settings observed externally.",
         technique="Lean 4 theorems on an association-list JSON model + differential correspondence (in-process and CLI)",
     ),
+    "C18": dict(
+        text="Unbounded proof, for the TypeScript renderer and the Zod schema builder, that rendering with a mapping table equals rendering the substituted structure without a table "
+             "(every depth, every constructor position), that a mapped name is emitted as its target's schema and never as <Name>Schema, and that structures without mapped names render "
+             "identically; generic keys survive the resolver as one name; tied to the code at all five sites and both modes with mapped-vs-unmapped comparison per case.",
+        design_ref="DESIGN.md section 7.C18",
+        note="Trusted: Lean kernel; renderer models validated per case; positions of the C05/C02 findings excluded; project-level 'still declared' case is finding K18a.",
+        technique="Lean 4 theorems (mutual structural induction over TypeStructure) + differential / metamorphic correspondence",
+    ),
 }
